@@ -50,6 +50,12 @@ Trusted (not derived), in addition to tnum's list: every axis has at least one c
   numpy assignment semantics (right-hand side evaluated before the store, as-if-copied on overlap); `np.sign`, and
   `bool * float` = 0/1 cast.  A differential test (formulas evaluated numerically against the real package on
   uniform / non-uniform grids with 1, 2, 3 cells per axis) is described in the report of T-upw's author.
+INERT statements (tinert.py: print / warnings.warn / logging calls and asserts on PURE expressions, `pass`, `if <pure>:`
+  over such statements, validation guards `if <pure>: raise E(...)`, assignments to locals that only such statements
+  read) are skipped in the builders, the helpers (`_upwind_min_max`, `_fsign`) and the dispatchers; a guard whose test
+  the interpreter DOES understand (`len(args)`, the grid class) is still executed, so `if len(args) > 0: raise` keeps
+  the function untranslated.  Keyword-only / trailing parameters with a default that only inert statements read are
+  ignored in the signature checks.  The test is purely syntactic, so a skipped statement cannot write.
 Everything else: as tnum (csr_array band check, ravel/hstack/tile, zeros + interior assignment, dispatcher parsing,
 `untranslated` policy).  tnum.py is not edited; `tnum.shift` is monkey-patched (positions may carry symbolic offsets).
 """
@@ -58,6 +64,7 @@ from fractions import Fraction
 
 sys.path.insert(0, os.path.dirname(os.path.abspath(__file__)))
 import tnum
+import tinert
 from tnum import (Bad, Poly, ONE, Arr, Cat, Zeros, Vec, Mat, Tup, Ref, MeshInfo, AXES, VAR, KIND, SUFFIXES, scalar,
                   strip_outer, write_if_changed)
 
@@ -287,7 +294,10 @@ class UInterp(tnum.Interp):
         self.module, self.helpers, self.frozen = module, helpers, list(frozen)
 
     # ---- statements
+    inert = tinert.analysis(None)
+
     def run(self, fn):
+        self.inert = tinert.analysis(fn)
         self.exec_block(fn.body)
         if self.result is None:
             raise Bad("no return")
@@ -299,13 +309,21 @@ class UInterp(tnum.Interp):
                 raise Bad("statement after return")
             if isinstance(st, ast.Expr) and isinstance(st.value, ast.Constant) and isinstance(st.value.value, str):
                 continue
+            if self.inert.skip(st):             # inert statement (tinert.py): no effect on the result
+                continue
             st = tnum.plain_assign(st)
             if isinstance(st, ast.Assign):
                 self.assign(st)
             elif isinstance(st, ast.AugAssign):
                 self.augassign(st)
             elif isinstance(st, ast.If):
-                self.exec_block(st.body if self.test(st.test) else st.orelse)
+                try:
+                    taken = self.test(st.test)
+                except Bad:
+                    if self.inert.skip_guard(st):       # a validation guard on a test that is not understood
+                        continue
+                    raise
+                self.exec_block(st.body if taken else st.orelse)
             elif isinstance(st, ast.Return):
                 if st.value is None:
                     raise Bad("bare return")
@@ -727,7 +745,7 @@ class UInterp(tnum.Interp):
         args = [self.ev(a) for a in node.args]
         if args and all(isinstance(a, Ref) and a.what[0] == "par" for a in args):
             fn = self.helpers.fns[name]
-            a = fn.args
+            a = tinert.effective_args(fn)
             if len(a.args) != len(args) or a.vararg or a.kwarg or a.kwonlyargs or a.defaults:
                 raise Bad(f"call of {name}: signature")
             sub = UInterp(self.mesh, self.cls, self.pars, self.primary, None, self.has_arg, self.module, self.helpers)
@@ -800,7 +818,7 @@ class Helpers:
             return self.done[name]
         self.done[name] = None
         fn = self.fns[name]
-        a = fn.args
+        a = tinert.effective_args(fn)
         if a.vararg or a.kwarg or a.kwonlyargs or len(a.args) < 1 or len(a.defaults) != len(a.args) - 1:
             raise Bad(f"{name}: signature")
         lean = "fn_" + name.lstrip("_")
@@ -837,12 +855,12 @@ def dispatcher(tree, name, prefix, nfixed):
     if len(fns) != 1:
         raise Bad(f"dispatcher {name} not found")
     fn = fns[0]
-    a = fn.args
+    a = tinert.effective_args(fn)
     if len(a.args) != nfixed or a.vararg is None or a.kwarg or a.kwonlyargs or a.defaults:
         raise Bad(f"dispatcher {name}: signature")
     pars = [p.arg for p in a.args]
     want = pars + ["*" + a.vararg.arg]
-    body = [s for s in fn.body if not (isinstance(s, ast.Expr) and isinstance(s.value, ast.Constant))]
+    body = [s for s in tinert.live_body(fn) if not (isinstance(s, ast.Expr) and isinstance(s.value, ast.Constant))]
     if len(body) != 1 or not isinstance(body[0], ast.If):
         raise Bad(f"dispatcher {name}: expected one if-chain")
     node, out = body[0], {}
@@ -878,7 +896,7 @@ def setup(mesh, tree, helpers, name, disp, kinds, has_arg):
     if len(fns) != 1:
         raise Bad("function not found")
     fn = fns[0]
-    a = fn.args
+    a = tinert.effective_args(fn)
     if len(a.args) != len(kinds) or a.vararg is None or a.kwarg or a.kwonlyargs or a.defaults:
         raise Bad("signature")
     if name not in disp:
@@ -1015,6 +1033,7 @@ variable {α : Type} [Field α] [LinearOrder α] [IsStrictOrderedRing α]
 
 def generate(repo):
     src = os.path.join(repo, "src", "pyfvtool")
+    tinert.set_repo(repo)
 
     def parse(f):
         return tnum.note_module(ast.parse(open(os.path.join(src, f)).read()))
@@ -1063,6 +1082,7 @@ def main():
     repo = os.environ.get("VERIF_REPO", "/repo")
     dst = sys.argv[1]
     text, status = generate(repo)
+    status = tinert.annotate(status)
     write_if_changed(dst, text)
     base = os.path.splitext(os.path.basename(dst))[0].lower()
     write_if_changed(os.path.join(os.path.dirname(os.path.abspath(dst)), f"{base}_status.json"),
